@@ -120,9 +120,8 @@ def run_impl(case):
 
 
 def model_request(case, tbl, da, partner):
-    import xgcm.padding as xp
-    # the order in which the implementation iterates the pad axes (same process, same hash seed)
-    conn_axes = xp._get_all_connection_axes({"face": fg.fc_arg(tbl)["face"]}, "face")
+    # the axes the table names (computed here, not through a private helper of xgcm)
+    conn_axes = fg.table_axes(tbl)
     pad_axes = [a for a in ("X", "Y") if a in (conn_axes + list(case["widths"].keys()))]     # the grid's own axis order (not a set's)
     data4 = fg.canon_faces(da, *case["dims"])
     R = data4.shape[3]
